@@ -195,6 +195,10 @@ def run(ctx):
                 ident = "%s|%s|%d" % (rn, s.what.replace("std::option::Option::<T>::", "Option::").replace("<std::vec::Vec<T, A> as std::ops::Index<I>>::index", "Vec[index]"), ordn)
                 by_kind[s.what if s.kind == "assert" else s.what.rsplit("::", 1)[-1]] += 1
                 just = PN.justify(facts, roles, arity, s, justified) if is_lib or s.rule not in ("index",) else None
+                if just is None and not is_lib and s.what == "std::process::exit":
+                    just = "process::exit in the command-line binary ends the process with an exit status (the status itself is C18's K4)"
+                if just is None and not is_lib and s.what == "std::io::_eprint":
+                    just = "diagnostic written to stderr by the command-line binary: panics only if stderr is closed or broken — an environment fault outside the property's quantifier"
                 if just is None and ident in justified:
                     just = "J5 table: " + justified[ident]
                     used_j5.add(ident)
@@ -506,8 +510,9 @@ def boundary_cli(ctx, facts, tag):
     ctx.need(len(mains) == 1, "main not found")
     m = mains[0]
     out = facts.items[m.key]["output"]
-    ctx.check(out.startswith("std::result::Result<(), "), "K3.cli-result", "main returns Result<(), _> (%s)" % tag,
-              "main returns %s: failures would not become a non-zero exit status through Termination" % out, where=m.where(), fn=m.key)
+    propagates = any((callee_path(t) or "").endswith("as std::ops::Try>::branch") for _, t in m.calls())
+    ctx.check(out.startswith("std::result::Result<(), ") or (out == "()" and not propagates), "K3.cli-result", "main ends with an exit status: Result<(), _> through Termination, or () with failures handled by process::exit (%s)" % tag,
+              "main returns %s: failures would not become an exit status" % out, where=m.where(), fn=m.key)
     # expect() on a clap value is backed by required(true) on the same argument name
     for bi, t in m.calls():
         if callee_path(t) == "std::option::Option::<T>::expect":
@@ -530,8 +535,8 @@ def boundary_cli(ctx, facts, tag):
                                 req = True
             ctx.check(req, "K3.cli-required", "expect on clap argument %r is backed by required(true) (%s)" % (name, tag),
                       "main unwraps the value of argument %r but the argument is not declared required(true): a missing argument would panic" % name, where=m.where(bi), fn=m.key, nontrivial=True)
-    exits = [callee_path(t) for b in facts.fns() for _, t in b.calls() if callee_path(t) in ("std::process::exit", "std::process::abort")]
-    ctx.check(not exits, "K3.cli-no-exit", "no process::exit/abort in the binary (%s)" % tag, "the binary calls %s" % exits, where=m.where(), fn=m.key)
+    exits = [callee_path(t) for b in facts.fns() for _, t in b.calls() if callee_path(t) in ("std::process::abort", "std::intrinsics::abort")]
+    ctx.check(not exits, "K3.cli-no-abort", "no process::abort in the binary — process::exit(status) is an ordinary end with an exit status (%s)" % tag, "the binary calls %s" % exits, where=m.where(), fn=m.key)
 
 
 def boundary_python(ctx, facts, roles, tag):
